@@ -189,7 +189,20 @@ impl Compactor {
 		crate::verif::yield_sync("compact.post_snapshots");
 
 		// Create a compaction iterator that filters tombstones and respects snapshots
-		let max_level = self.options.lopts.level_count - 1;
+		// The bottom level is the deepest one that can hold data. A store reopened with a
+		// smaller `level_count` than it was built with keeps its deeper levels (the manifest
+		// decides how many there are): tombstones must not be dropped above tables that
+		// still hold the versions they hide.
+		let deepest_populated = self
+			.options
+			.level_manifest
+			.read()?
+			.levels
+			.get_levels()
+			.iter()
+			.rposition(|level| !level.tables.is_empty())
+			.unwrap_or(0) as u8;
+		let max_level = (self.options.lopts.level_count - 1).max(deepest_populated);
 		let is_bottom_level = input.target_level >= max_level;
 		let mut comp_iter = CompactionIterator::new(
 			merge_iter,
